@@ -5,3 +5,7 @@ import Cstl.SList.Props
 import Cstl.DList.Props
 import Cstl.SList.Tie
 import Cstl.DList.Tie
+import Cstl.Heap.Props
+import Cstl.Conc.Props
+import Cstl.HashFn.Props
+import Cstl.Link.Props
